@@ -4,7 +4,10 @@ package e2e
 
 import (
 	"bytes"
+	"context"
+	"errors"
 	"fmt"
+	"net"
 	"io"
 	"log/slog"
 	"net/netip"
@@ -106,6 +109,29 @@ type c49Node struct {
 	stopped atomic.Bool
 	stalled atomic.Bool // the node's socket does not drain (a stalled NIC queue): writes block once the 10-slot buffer is full
 	pumps   sync.WaitGroup
+	hook    *c49Hook
+	startMu sync.Mutex // held around Control.Start so that an injected Stop never overlaps the harness's own Start call
+	dnsPort int        // != 0: the node serves DNS on 127.0.0.1:dnsPort (a real socket), which Stop must release
+}
+
+// c49Hook is the node's log handler. It counts the records the node emits (info and above) and, when armed, turns the
+// k-th record into a crash point: the goroutine that logs it is held (at most two seconds) while Stop is injected.
+type c49Hook struct {
+	w     *c49World
+	n     *c49Node
+	count atomic.Int64
+	arm   atomic.Int64
+}
+
+func (h *c49Hook) Enabled(_ context.Context, l slog.Level) bool { return l >= slog.LevelInfo }
+func (h *c49Hook) WithAttrs([]slog.Attr) slog.Handler          { return h }
+func (h *c49Hook) WithGroup(string) slog.Handler               { return h }
+func (h *c49Hook) Handle(_ context.Context, r slog.Record) error {
+	k := h.count.Add(1)
+	if a := h.arm.Load(); a != 0 && k == a {
+		h.w.fire(r.Message)
+	}
+	return nil
 }
 
 type c49Hub struct {
@@ -178,6 +204,28 @@ type c49World struct {
 	nodes []*c49Node
 	ca    cert.Certificate
 	caKey []byte
+	// log-record crash points
+	fireOnce sync.Once
+	trigger  chan struct{} // closed when the armed record is being logged
+	released chan struct{} // closed when the injected Stop has returned
+	firedAt  string
+}
+
+var c49Aborted atomic.Bool // the scenario script of the current run stops waiting: a Stop was injected from a log record
+
+func (w *c49World) fire(msg string) {
+	fired := false
+	w.fireOnce.Do(func() {
+		fired = true
+		w.firedAt = msg
+		close(w.trigger)
+	})
+	if fired {
+		select {
+		case <-w.released:
+		case <-time.After(2 * time.Second):
+		}
+	}
 }
 
 func (w *c49World) add(name, network string, overrides m) *c49Node {
@@ -204,7 +252,9 @@ func (w *c49World) add(name, network string, overrides m) *c49Node {
 	if err != nil {
 		w.t.Fatal(err)
 	}
-	l := slog.New(slog.DiscardHandler)
+	n := &c49Node{name: name}
+	n.hook = &c49Hook{w: w, n: n}
+	l := slog.New(n.hook)
 	conf := config.NewC(l)
 	if err := conf.LoadString(string(cb)); err != nil {
 		w.t.Fatal(err)
@@ -214,7 +264,7 @@ func (w *c49World) add(name, network string, overrides m) *c49Node {
 	if err != nil {
 		w.t.Fatalf("Main: %v", err)
 	}
-	n := &c49Node{name: name, c: c, conf: conf, vpn: nets[0].Addr(), udp: udpAddr, tun: tunDev}
+	n.c, n.conf, n.vpn, n.udp, n.tun = c, conf, nets[0].Addr(), udpAddr, tunDev
 	w.nodes = append(w.nodes, n)
 	w.hub.mu.Lock()
 	w.hub.nodes[udpAddr] = n
@@ -266,9 +316,41 @@ func c49ParkedPunchFires() int {
 	return n
 }
 
+var errC49Aborted = errors.New("scenario script abandoned: a Stop was injected from a log record")
+
+// dnsUp sends one DNS query to the node's responder and reports whether anything came back (bound and serving).
+func (n *c49Node) dnsUp() bool {
+	conn, err := net.Dial("udp", fmt.Sprintf("127.0.0.1:%d", n.dnsPort))
+	if err != nil {
+		return false
+	}
+	defer conn.Close()
+	// header (id 0x1234, RD), one question: "x." A IN
+	q := []byte{0x12, 0x34, 0x01, 0x00, 0, 1, 0, 0, 0, 0, 0, 0, 1, 'x', 0, 0, 1, 0, 1}
+	if _, err := conn.Write(q); err != nil {
+		return false
+	}
+	_ = conn.SetReadDeadline(time.Now().Add(50 * time.Millisecond))
+	buf := make([]byte, 512)
+	k, err := conn.Read(buf)
+	return err == nil && k >= 12 && buf[0] == 0x12 && buf[1] == 0x34
+}
+
+func c49FreeUDPPort() int {
+	pc, err := net.ListenPacket("udp", "127.0.0.1:0")
+	if err != nil {
+		return 0
+	}
+	defer pc.Close()
+	return pc.LocalAddr().(*net.UDPAddr).Port
+}
+
 func c49WaitFor(what string, cond func() bool) error {
 	deadline := time.Now().Add(60 * time.Second)
 	for time.Now().Before(deadline) {
+		if c49Aborted.Load() {
+			return errC49Aborted
+		}
 		if cond() {
 			return nil
 		}
@@ -298,9 +380,10 @@ type c49Step struct {
 }
 
 type c49Scenario struct {
-	name  string
-	build func(w *c49World)
-	steps []c49Step
+	name      string
+	build     func(w *c49World)
+	steps     []c49Step
+	logPoints bool // quick tier: also inject Stop at every log record of the complete script
 }
 
 func c49Scenarios() []c49Scenario {
@@ -309,7 +392,10 @@ func c49Scenarios() []c49Scenario {
 	}
 	startAll := c49Step{"start", func(w *c49World) error {
 		for _, n := range w.nodes {
-			if err := n.c.Start(); err != nil {
+			n.startMu.Lock()
+			err := n.c.Start()
+			n.startMu.Unlock()
+			if err != nil && !c49Aborted.Load() {
 				return err
 			}
 		}
@@ -322,8 +408,20 @@ func c49Scenarios() []c49Scenario {
 		b.c.InjectLightHouseAddr(a.vpn, a.udp)
 	}
 	return []c49Scenario{
-		{"single-node", func(w *c49World) { w.add("a", "10.128.0.1/24", nil) }, []c49Step{startAll}},
-		{"two-nodes-handshake-and-traffic", pair, []c49Step{
+		{name: "single-node", build: func(w *c49World) { w.add("a", "10.128.0.1/24", nil) }, steps: []c49Step{startAll}, logPoints: true},
+		{name: "lighthouse-serving-dns", build: func(w *c49World) {
+			// a lighthouse that answers DNS on a real loopback socket: Control.Start spawns the responder asynchronously
+			port := c49FreeUDPPort()
+			n := w.add("lh", "10.128.0.128/24", m{"lighthouse": m{"am_lighthouse": true, "serve_dns": true, "dns": m{"host": "127.0.0.1", "port": port}}})
+			n.dnsPort = port
+		}, steps: []c49Step{startAll,
+			{"dns-responder-started", func(w *c49World) error {
+				before := w.nodes[0].hook.count.Load()
+				_ = before
+				return c49WaitFor("the DNS responder goroutine announced itself", func() bool { return w.nodes[0].dnsUp() })
+			}},
+		}, logPoints: true},
+		{name: "two-nodes-handshake-and-traffic", logPoints: true, build: pair, steps: []c49Step{
 			startAll,
 			{"first-message-in-flight", func(w *c49World) error {
 				w.hub.setHold(true)
@@ -344,7 +442,7 @@ func c49Scenarios() []c49Scenario {
 				return c49WaitFor("data both ways", func() bool { return w.nodes[0].sawOnTun("BACK-1") && w.nodes[1].sawOnTun("FWD-2") })
 			}},
 		}},
-		{"relayed-tunnel", func(w *c49World) {
+		{name: "relayed-tunnel", build: func(w *c49World) {
 			a := w.add("a", "10.128.0.1/24", m{"relay": m{"use_relays": true}})
 			r := w.add("r", "10.128.0.128/24", m{"relay": m{"am_relay": true}})
 			b := w.add("b", "10.128.0.2/24", m{"relay": m{"use_relays": true}})
@@ -354,7 +452,7 @@ func c49Scenarios() []c49Scenario {
 			r.c.InjectLightHouseAddr(a.vpn, a.udp)
 			b.c.InjectLightHouseAddr(r.vpn, r.udp)
 			b.c.InjectRelays(a.vpn, []netip.Addr{r.vpn})
-		}, []c49Step{
+		}, steps: []c49Step{
 			startAll,
 			{"relay-negotiation-in-flight", func(w *c49World) error {
 				w.hub.setHold(true)
@@ -375,7 +473,7 @@ func c49Scenarios() []c49Scenario {
 				})
 			}},
 		}},
-		{"punch-queue-full-on-a-stalled-socket", func(w *c49World) {
+		{name: "punch-queue-full-on-a-stalled-socket", build: func(w *c49World) {
 			// lh is a lighthouse; a and five queriers q1..q5 report to it. Every querier advertises 10+10 addresses, so each
 			// query for a makes the lighthouse send a a punch notification worth 20 punch jobs.
 			lh := w.add("lh", "10.128.0.128/24", m{"lighthouse": m{"am_lighthouse": true}})
@@ -397,7 +495,7 @@ func c49Scenarios() []c49Scenario {
 				o["lighthouse"].(m)["advertise_addrs"] = adv
 				w.add(fmt.Sprintf("q%d", i), fmt.Sprintf("10.128.0.%d/24", 10+i), o)
 			}
-		}, []c49Step{
+		}, steps: []c49Step{
 			startAll,
 			{"everyone-registered-with-the-lighthouse", func(w *c49World) error {
 				lh := w.nodes[0]
@@ -432,14 +530,14 @@ func c49Scenarios() []c49Scenario {
 				return c49WaitFor("punch jobs waiting for room on a's full punch queue", func() bool { return c49ParkedPunchFires() >= 3 })
 			}},
 		}},
-		{"reload-and-queued-lighthouse-work", func(w *c49World) {
+		{name: "reload-and-queued-lighthouse-work", build: func(w *c49World) {
 			// a reports to a lighthouse that never answers; packets to unknown peers queue lighthouse queries and handshakes
 			a := w.add("a", "10.128.0.1/24", m{"lighthouse": m{"hosts": []string{"10.128.0.250"}, "interval": 1},
 				"static_host_map": m{"10.128.0.250": []string{"10.0.0.250:4242"}}})
 			b := w.add("b", "10.128.0.2/24", nil)
 			a.c.InjectLightHouseAddr(b.vpn, b.udp)
 			b.c.InjectLightHouseAddr(a.vpn, a.udp)
-		}, []c49Step{
+		}, steps: []c49Step{
 			startAll,
 			{"queued-lighthouse-queries", func(w *c49World) error {
 				a := w.nodes[0]
@@ -466,8 +564,8 @@ func c49Scenarios() []c49Scenario {
 	}
 }
 
-func c49Signature(sc, step, node, what string) string {
-	return fmt.Sprintf("C49 %s: Stop of node %s after step %q: %s", sc, node, step, what)
+func c49Signature(sc, where, node, what string) string {
+	return fmt.Sprintf("C49 %s: Stop of node %s %s: %s", sc, node, where, what)
 }
 
 func TestVerifC49(t *testing.T) {
@@ -475,134 +573,257 @@ func TestVerifC49(t *testing.T) {
 	defer c.End()
 	nb, na := time.Now().Add(-time.Hour), time.Now().Add(24*time.Hour)
 	ca, _, caKey, _ := cert_test.NewTestCaCert(cert.Version2, cert.Curve_CURVE25519, nb, na, nil, nil, []string{})
-	var points, nontrivial, maxGoroutines int64
+	var points, nontrivial, maxGoroutines, logPoints, logPointsFired int64
 	outcomes := map[string]int64{}
+	firedAt := map[string]int64{}
 	scenarios := c49Scenarios()
 	if !c.Thorough() {
-		scenarios = scenarios[:4]
+		scenarios = scenarios[:5]
 	}
+
+	// runPoint executes one crash point. Step mode (logIdx == 0): the scenario's first k steps, then Stop on node ni.
+	// Log-record mode (logIdx > 0): the whole script, with Stop injected while node ni emits its logIdx-th log record (if the
+	// node emits fewer records in this run, Stop comes after the script as in step mode).
+	// It returns false when ni is beyond the scenario's nodes, plus the number of records every node logged.
+	runPoint := func(sc c49Scenario, k, ni int, logIdx int64, grace time.Duration) (bool, []int64) {
+		base := goleak.IgnoreCurrent()
+		w := &c49World{t: t, hub: &c49Hub{nodes: map[netip.AddrPort]*c49Node{}}, ca: ca, caKey: caKey, trigger: make(chan struct{}), released: make(chan struct{})}
+		c49Aborted.Store(false)
+		sc.build(w)
+		if ni >= len(w.nodes) {
+			for _, n := range w.nodes {
+				n.c.Stop()
+			}
+			return false, nil
+		}
+		victim := w.nodes[ni]
+		stopOK := make(chan bool, 1)
+		noTrigger := make(chan struct{})
+		var built []int64 // records logged while nebula.Main assembled the node: there is nothing to stop yet
+		for _, n := range w.nodes {
+			built = append(built, n.hook.count.Load())
+		}
+		if logIdx > 0 {
+			victim.hook.arm.Store(built[ni] + logIdx)
+			go func() {
+				select {
+				case <-w.trigger:
+				case <-noTrigger:
+					return
+				}
+				c49Aborted.Store(true)
+				victim.stopped.Store(true)
+				victim.startMu.Lock() // never overlap the script's own Start call on this node
+				ok := c49Within(30*time.Second, func() { victim.c.Stop() })
+				victim.startMu.Unlock()
+				// grace > 0: the goroutine that logged the record stays held a little longer, so that everything Stop set in
+				// motion (context watchers, closers) runs BEFORE it continues; grace == 0: it continues at once and races them
+				time.Sleep(grace)
+				close(w.released)
+				stopOK <- ok
+			}()
+		}
+		stepName := "main"
+		started := false
+		var setupErr error
+		for i := 0; i < k; i++ {
+			if sc.steps[i].name == "start" {
+				for _, n := range w.nodes {
+					w.startPumps(n)
+				}
+				started = true
+			}
+			if err := sc.steps[i].run(w); err != nil {
+				if !errors.Is(err, errC49Aborted) {
+					setupErr = err
+				}
+				break
+			}
+			if c49Aborted.Load() {
+				break
+			}
+			stepName = sc.steps[i].name
+		}
+		if setupErr != nil && !c49Aborted.Load() {
+			c.Broken("scenario %s step %d: %v", sc.name, k, setupErr)
+		}
+		if g := int64(runtime.NumGoroutine()); g > maxGoroutines {
+			maxGoroutines = g
+		}
+		points++
+		if started {
+			nontrivial++
+		}
+		detail := map[string]any{"scenario": sc.name, "steps_before_stop": k, "last_step": stepName, "stopped_node": victim.name}
+		where := fmt.Sprintf("after step %q", stepName)
+		// --- the crash point ---
+		injected := false
+		if logIdx > 0 {
+			select {
+			case <-w.trigger:
+				injected = true
+			default:
+				close(noTrigger)
+				select { // the record may have been logged between the two tests
+				case <-w.trigger:
+					injected = true
+				default:
+				}
+			}
+		}
+		if injected {
+			logPointsFired++
+			firedAt[sc.name+": "+w.firedAt]++
+			where = fmt.Sprintf("while logging %q", w.firedAt)
+			detail["stop_injected_while_logging"] = w.firedAt
+			detail["log_record_index"] = logIdx
+			detail["logging_goroutine_held_after_stop_ms"] = grace.Milliseconds()
+			if !<-stopOK {
+				c.Violation(c49Signature(sc.name, where, victim.name, "Stop did not return within 30s"), detail)
+				return true, nil
+			}
+		} else {
+			victim.stopped.Store(true)
+			if !c49Within(30*time.Second, func() { victim.c.Stop() }) {
+				c.Violation(c49Signature(sc.name, where, victim.name, "Stop did not return within 30s"), detail)
+				return true, nil
+			}
+		}
+		if started {
+			if !c49Within(30*time.Second, func() { _ = victim.c.Wait() }) {
+				c.Violation(c49Signature(sc.name, where, victim.name, "Wait did not return within 30s after Stop"), detail)
+				return true, nil
+			}
+			if !c49Within(30*time.Second, victim.pumps.Wait) {
+				c.Violation(c49Signature(sc.name, where, victim.name, "socket still open after Stop"), detail)
+				return true, nil
+			}
+		}
+		if !victim.tun.isClosed() {
+			c.Violation(c49Signature(sc.name, where, victim.name, "tun device still open after Stop"), detail)
+		}
+		if st := victim.c.State(); st != nebula.StateStopped {
+			c.Violation(c49Signature(sc.name, where, victim.name, fmt.Sprintf("state after Stop is %v", st)), detail)
+		}
+		select {
+		case <-victim.c.Context().Done():
+		default:
+			c.Violation(c49Signature(sc.name, where, victim.name, "service context still live after Stop"), detail)
+		}
+		// the others keep running for a moment against the dead peer, then are stopped too
+		for _, n := range w.nodes {
+			if n != victim && started && !c49Aborted.Load() {
+				n.tun.inject(BuildTunUDPPacket(victim.vpn, 80, n.vpn, 80, []byte("after-stop")))
+			}
+		}
+		w.hub.setHold(false)
+		for _, n := range w.nodes {
+			if n == victim {
+				continue
+			}
+			n.stopped.Store(true)
+			if !c49Within(30*time.Second, func() { n.c.Stop() }) {
+				c.Violation(c49Signature(sc.name, where, n.name, "Stop of a surviving node did not return within 30s"), detail)
+				return true, nil
+			}
+			if started {
+				if !c49Within(30*time.Second, func() { _ = n.c.Wait(); n.pumps.Wait() }) {
+					c.Violation(c49Signature(sc.name, where, n.name, "surviving node did not release its resources within 30s"), detail)
+					return true, nil
+				}
+			}
+		}
+		if err := goleak.Find(base, goleak.IgnoreTopFunction("github.com/slackhq/nebula/e2e.c49Within.func1")); err != nil {
+			msg := err.Error()
+			top := "unknown"
+			for _, ln := range strings.Split(msg, "\n") {
+				if strings.Contains(ln, "github.com/slackhq/nebula") && !strings.Contains(ln, "zz_verif") {
+					top = strings.TrimSpace(strings.Split(ln, "(")[0])
+					if i := strings.Index(top, "with "); i >= 0 { // goleak's header line: drop the goroutine number
+						top = strings.TrimSuffix(strings.TrimSpace(top[i+5:]), " on top of the stack:")
+					}
+					break
+				}
+			}
+			detail["goroutines"] = msg
+			c.Violation(fmt.Sprintf("C49 %s: goroutine left running after every node was stopped (first stopped: %s %s): %s", sc.name, victim.name, where, top), detail)
+		}
+		// real sockets the node opened (DNS responder) must be free again
+		for _, n := range w.nodes {
+			if n.dnsPort != 0 {
+				pc, err := net.ListenPacket("udp", fmt.Sprintf("127.0.0.1:%d", n.dnsPort))
+				if err != nil {
+					detail["bind_error"] = err.Error()
+					c.Violation(fmt.Sprintf("C49 %s: the DNS socket of %s is still bound after every node was stopped (first stopped: %s %s)", sc.name, n.name, victim.name, where), detail)
+				} else {
+					pc.Close()
+				}
+			}
+		}
+		if logIdx == 0 {
+			outcomes[fmt.Sprintf("%s/%s", sc.name, stepName)]++
+		}
+		c.Sample(detail)
+		var counts []int64
+		for i, n := range w.nodes {
+			counts = append(counts, n.hook.count.Load()-built[i])
+		}
+		return true, counts
+	}
+
 	for _, sc := range scenarios {
-		// the number of nodes is only known after build: do a dry build to enumerate (k, n)
+		var records []int64 // per node: log records of a complete run
 		for k := 0; k <= len(sc.steps); k++ {
 			for ni := 0; ; ni++ {
 				if c.OutOfTime() {
 					c.Capped("time budget")
 					break
 				}
-				base := goleak.IgnoreCurrent()
-				w := &c49World{t: t, hub: &c49Hub{nodes: map[netip.AddrPort]*c49Node{}}, ca: ca, caKey: caKey}
-				sc.build(w)
-				if ni >= len(w.nodes) {
-					for _, n := range w.nodes {
-						n.c.Stop()
-					}
+				more, counts := runPoint(sc, k, ni, 0, 0)
+				if !more {
 					break
 				}
-				stepName := "main"
-				started := false
-				var setupErr error
-				for i := 0; i < k; i++ {
-					if sc.steps[i].name == "start" {
-						for _, n := range w.nodes {
-							w.startPumps(n)
-						}
-						started = true
+				if k == len(sc.steps) && counts != nil {
+					for len(records) <= ni {
+						records = append(records, 0)
 					}
-					if err := sc.steps[i].run(w); err != nil {
-						setupErr = err
-						break
-					}
-					stepName = sc.steps[i].name
-				}
-				if setupErr != nil {
-					c.Broken("scenario %s step %d: %v", sc.name, k, setupErr)
-				}
-				if g := int64(runtime.NumGoroutine()); g > maxGoroutines {
-					maxGoroutines = g
-				}
-				victim := w.nodes[ni]
-				points++
-				if started {
-					nontrivial++
-				}
-				detail := map[string]any{"scenario": sc.name, "steps_before_stop": k, "last_step": stepName, "stopped_node": victim.name}
-				// --- the crash point ---
-				victim.stopped.Store(true)
-				if !c49Within(30*time.Second, func() { victim.c.Stop() }) {
-					c.Violation(c49Signature(sc.name, stepName, victim.name, "Stop did not return within 30s"), detail)
-					return
-				}
-				if started {
-					if !c49Within(30*time.Second, func() { _ = victim.c.Wait() }) {
-						c.Violation(c49Signature(sc.name, stepName, victim.name, "Wait did not return within 30s after Stop"), detail)
-						return
-					}
-					if !c49Within(30*time.Second, victim.pumps.Wait) {
-						c.Violation(c49Signature(sc.name, stepName, victim.name, "socket still open after Stop"), detail)
-						return
+					if counts[ni] > records[ni] {
+						records[ni] = counts[ni]
 					}
 				}
-				if !victim.tun.isClosed() {
-					c.Violation(c49Signature(sc.name, stepName, victim.name, "tun device still open after Stop"), detail)
+			}
+		}
+		// log-record crash points: Stop injected while the node emits its j-th record of the complete script (info level and
+		// above: start-up, listeners, handshakes, reloads). Quick: the scenarios marked for it; thorough: all.
+		if !sc.logPoints && !c.Thorough() {
+			continue
+		}
+		for ni, nrec := range records {
+			for j := int64(1); j <= nrec && j <= 64; j++ {
+				if c.OutOfTime() {
+					c.Capped("time budget")
+					break
 				}
-				if st := victim.c.State(); st != nebula.StateStopped {
-					c.Violation(c49Signature(sc.name, stepName, victim.name, fmt.Sprintf("state after Stop is %v", st)), detail)
+				for _, grace := range []time.Duration{0, 100 * time.Millisecond} {
+					logPoints++
+					runPoint(sc, len(sc.steps), ni, j, grace)
 				}
-				select {
-				case <-victim.c.Context().Done():
-				default:
-					c.Violation(c49Signature(sc.name, stepName, victim.name, "service context still live after Stop"), detail)
-				}
-				// the others keep running for a moment against the dead peer, then are stopped too
-				for _, n := range w.nodes {
-					if n != victim && started {
-						n.tun.inject(BuildTunUDPPacket(victim.vpn, 80, n.vpn, 80, []byte("after-stop")))
-					}
-				}
-				w.hub.setHold(false)
-				for _, n := range w.nodes {
-					if n == victim {
-						continue
-					}
-					n.stopped.Store(true)
-					if !c49Within(30*time.Second, func() { n.c.Stop() }) {
-						c.Violation(c49Signature(sc.name, stepName, n.name, "Stop of a surviving node did not return within 30s"), detail)
-						return
-					}
-					if started {
-						if !c49Within(30*time.Second, func() { _ = n.c.Wait(); n.pumps.Wait() }) {
-							c.Violation(c49Signature(sc.name, stepName, n.name, "surviving node did not release its resources within 30s"), detail)
-							return
-						}
-					}
-				}
-				if err := goleak.Find(base, goleak.IgnoreTopFunction("github.com/slackhq/nebula/e2e.c49Within.func1")); err != nil {
-					msg := err.Error()
-					top := "unknown"
-					for _, ln := range strings.Split(msg, "\n") {
-						if strings.Contains(ln, "github.com/slackhq/nebula") && !strings.Contains(ln, "zz_verif") {
-							top = strings.TrimSpace(strings.Split(ln, "(")[0])
-							if i := strings.Index(top, "with "); i >= 0 { // goleak's header line: drop the goroutine number
-								top = strings.TrimSuffix(strings.TrimSpace(top[i+5:]), " on top of the stack:")
-							}
-							break
-						}
-					}
-					detail["goroutines"] = msg
-					c.Violation(fmt.Sprintf("C49 %s: goroutine left running after every node was stopped (first stopped: %s after %q): %s", sc.name, victim.name, stepName, top), detail)
-				}
-				outcomes[fmt.Sprintf("%s/%s", sc.name, stepName)]++
-				c.Sample(detail)
 			}
 		}
 	}
 	_ = header.Len
 	c.Require(nontrivial >= 4, "too few crash points with started nodes: %d", nontrivial)
+	if !c.OutOfTime() && c.Violations() == 0 {
+		c.Require(logPointsFired > 0, "no Stop was injected from a log record (%d attempted)", logPoints)
+	}
 	c.Set("evaluations", points)
 	c.Set("distinct_nontrivial", nontrivial)
-	c.Set("rule", "one evaluation = one (scenario, number of steps executed, node stopped first) crash point, every one distinct; non-trivial = the nodes were started (goroutines, sockets and devices live) when Stop was injected")
+	c.Set("rule", "one evaluation = one crash point: (scenario, number of steps executed, node stopped first) or (scenario, node, index of the log record during which Stop is injected); non-trivial = the nodes were started (goroutines, sockets and devices live) when Stop was injected")
 	c.Set("crash_points_by_phase", outcomes)
+	c.Set("log_record_crash_points_attempted", logPoints)
+	c.Set("log_record_crash_points_injected", logPointsFired)
+	c.Set("log_records_that_became_crash_points", firedAt)
 	c.Set("max_goroutines_alive_at_a_crash_point", maxGoroutines)
-	c.Assume("crash points are exhaustive at step granularity; the goroutine interleaving inside a step is free-running (real scheduler)")
+	c.Assume("crash points are exhaustive at step granularity and, for the marked scenarios, at log-record granularity (the goroutine emitting the record is held while Stop is injected and released either at once or 100 ms later, at most 2 s); the interleaving of the other goroutines is free-running (real scheduler)")
 	c.Assume("'returns promptly' is checked with a 30 s hang detector only")
 }
